@@ -74,10 +74,35 @@ class C10(scen.WorldProp):
         return {"k": "world", "scenario": sc, "humans": humans, "seed": rng.getrandbits(32), "faults": faults,
                 "silent": False, "t0": t_lt, "spawn": arrive}
 
+    def stopped_case(self, rng):
+        """Server mode, a human on the leading bell: the first touch is cut off by Stop Touch at some instant (also
+        while Wheatley is waiting for that ringer), then Look To again.  The band keeps ringing: so must Wheatley."""
+        from harness.props.c19 import method_msg
+        N = rng.choice([4, 6])
+        humans = sorted(set([1] + rng.sample(range(2, N + 1), rng.choice([0, 1]))))
+        wb = [b for b in range(1, 17) if b not in humans]
+        I = scen.interval(180, N)
+        row_t = I * (N + 0.5)
+        t0 = 1000.5 + rng.random()
+        t_stop = t0 + 3 + rng.uniform(1.0, 4.0) * row_t
+        t1 = t_stop + 1.5 + rng.random()
+        events = [[t0 - 0.3, "msg", method_msg(N)], call(t0, LOOK_TO), [t_stop, "msg", {"m": "stop_touch"}],
+                  [t1 - 0.4, "msg", {"m": "global_state", "state": [True] * N}], call(t1, LOOK_TO)]
+        end = t1 + 3 + 8 * row_t + 4
+        sc = {"start": 1000.0, "end": end, "tower_size": N, "events": events,
+              "on_join": scen.humans_on_join(humans, "Wheatley", wb),
+              "bot": scen.bot_cfg({"type": "placeholder"}, up_down_in=True, stop_at_rounds=False,
+                                  user_name="Wheatley", server_id=rng.randint(1, 9)),
+              "rhythm": scen.rhythm_cfg("wait", inertia=rng.choice([0.5, 1.0]), peal_speed=180)}
+        return {"k": "world", "scenario": sc, "humans": humans, "seed": rng.getrandbits(32), "faults": 1,
+                "silent": False, "t0": t0, "spawn": "stopped", "again": t1, "stop_at": t_stop}
+
     def cases(self, rng, tier):
         n = 300 if tier == "quick" else 3000
         for i in range(n // 10):
             yield self.spawn_case(rng)
+        for i in range(n // 15):
+            yield self.stopped_case(rng)
         for i in range(n):
             N = rng.choice([4, 5, 6, 8, 10])
             humans = sorted(rng.sample(range(1, N + 1), rng.randint(0, N - 1)))
@@ -150,6 +175,9 @@ class C10(scen.WorldProp):
         if req["silent"]:
             return None
         humans = req["humans"]
+        if req.get("spawn") == "stopped":
+            # the ringer on the leading bell hesitates now and then, so that Stop Touch can find Wheatley waiting
+            return lambda s: [Band(s, humans, rng, [0.0, 0.05, 0.6, 1.0], 0, 0.0)]
         if req.get("spawn"):
             return lambda s: [Band(s, humans, rng, rng.choice([[0.0], [0.0, 0.05], [0.3]]), 0, 0.0)]
 
@@ -176,6 +204,14 @@ class C10(scen.WorldProp):
             return f"a handler raised {reply['handler_crashes']}"
         if reply["exited"] and sc["bot"].get("server_id") is None:
             return "the main loop returned although this is not server mode"
+        if req.get("again") is not None:
+            # the band kept ringing throughout the second touch: Wheatley completed rows
+            N = sc["tower_size"]
+            mine = [x for x in scen.rings(reply) if x[0] >= req["again"]]
+            nw = N - len(req["humans"])
+            if len(mine) < 3 * nw:
+                return (f"after Stop Touch and a new Look To the band rang on, but Wheatley struck only {len(mine)} times "
+                        f"in {sc['end'] - req['again']:.1f} s (its {nw} bells, rows of {N})")
         # keep-going with silent humans: Wheatley keeps the configured pace (never pauses for anyone)
         if req["silent"] and sc["rhythm"]["kind"] == "regression" and req["faults"] == 0 \
                 and not sc["bot"]["stop_at_rounds"] and sc["bot"]["gen"]["type"] != "comp":
